@@ -67,4 +67,10 @@ CHECKS = {
         'non-overlap with live chunks, coalescing and the high-water mark - an induction over histories of any length. Map: z3 decides per (circuit, options, capacity vector) that no two simultaneously live signals overlap, '
         'regions stay inside c_len and aliases are exact.',
    note='Chunk-count bound (allocator inspects a chunk and its two neighbours); liveness oracle in vlib/tables.py is trusted; circuit structure and capacity vectors enumerated.'),
+ 'C06': dict(engine='E1-lanes + E2-symx', category='model_checking', design_ref='DESIGN.md §5 C06',
+   technique='LogicSim: symbolic runs of the real simulator under each option setting, z3 term equality, lane non-interference with a symbolic lane index; WaveSim: forking product runs through the public API on shared symbolic delays/times',
+   text='LogicSim (m=2/4/8): for every corpus circuit the captured terms of all four (c_reuse, strip_forks) settings and two batch sizes are proved equal for all stimuli, and a lane is proved independent of all other lanes. '
+        'WaveSim/WaveSimCuda: product runs with all delays and times symbolic prove identical s[3..7], s[10] (symbolic capture time), identical signal memory without reuse, identical state transfer, independence of batch size, '
+        'lane position and c_prop(sims=k), and dataset selection by seed (mode 0) or per lane (mode 1) = that dataset alone.',
+   note='Delay selection mode 2 (pseudo-random per gate) and sd > 0 outside the claim. WaveSim part on circuits with <= 3 gates and one transition per input. Structure enumerated.'),
 }
